@@ -310,19 +310,25 @@ Lemma reraise_after_mono : forall A e (h : res unit * st) (x : res A) s s',
   reraise_after e h = (x, s') -> Mono s (snd h) -> Mono s s'.
 Proof. unfold reraise_after; intros. destruct h as [[|] s1]; inv H; auto. Qed.
 
+Lemma new_fairy_mono : forall c r s f s', new_fairy c r s = (f, s') -> Mono s s'.
+Proof.
+  unfold new_fairy; intros c r s f s' H. inv H.
+  constructor; cbn; intros; auto; try lia.
+  - rewrite upd_other by lia. auto.
+  - rewrite upd_other by lia. auto.
+  - unfold upd in H. destruct (Nat.eqb r0 r) eqn:Er.
+    + inv H. right. apply Nat.eqb_eq in Er. subst. rewrite !upd_same. repeat split; lia.
+    + auto.
+Qed.
+
 Lemma record_checkout_mono : forall s x s', record_checkout cf s = (x, s') -> Mono s s'.
 Proof.
   unfold record_checkout; intros.
   destruct (do_get cf s) as [[r|e] s1] eqn:E1; pose proof (do_get_mono _ _ _ E1) as M1; [|inv H; auto].
   destruct (get_connection cf r s1) as [[c|err] s2] eqn:E2;
     pose proof (RecLevel_Mono _ _ (get_connection_rl _ _ _ _ _ E2)) as M2.
-  - inv H. mt; [exact M1|]. mt; [exact M2|]. clear.
-    constructor; cbn; intros; auto; try lia.
-    + rewrite upd_other by lia. auto.
-    + rewrite upd_other by lia. auto.
-    + unfold upd in H. destruct (Nat.eqb r0 r) eqn:Er.
-      * inv H. right. apply Nat.eqb_eq in Er. subst. rewrite !upd_same. repeat split; lia.
-      * auto.
+  - destruct (new_fairy c r s2) as [f s3] eqn:Enf. inv H. mt; [exact M1|]. mt; [exact M2|].
+    eapply new_fairy_mono; eauto.
   - destruct (checkin_failed cf r false s2) as [y s3] eqn:E3.
     pose proof (checkin_failed_mono _ _ _ _ _ E3) as M3.
     eapply reraise_after_mono; [exact H|]. cbn. mt; [exact M1|]. mt; eauto.
@@ -540,7 +546,7 @@ Proof.
   destruct (do_get cf s) as [[r|e] s1] eqn:E1; pose proof (do_get_fr _ _ _ E1) as F1; [|inv H; auto].
   destruct (get_connection cf r s1) as [[c|err] s2] eqn:E2;
     pose proof (rl_fr' _ _ (get_connection_rl _ _ _ _ _ E2)) as F2.
-  - inv H. unfold nfairies, f_dead in *. cbn. rewrite F2, F1. rewrite upd_same. auto.
+  - unfold new_fairy in H. inv H. unfold nfairies, f_dead in *. cbn. rewrite F2, F1. rewrite upd_same. auto.
   - destruct (checkin_failed cf r false s2) as [y s3] eqn:E3. apply checkin_failed_fr in E3.
     unfold reraise_after in H. destruct y; inv H; congruence.
 Qed.
